@@ -4,7 +4,7 @@ use tyme4rs::tyme::jd::JulianDay;
 use tyme4rs::tyme::solar::SolarTime;
 use crate::util::*;
 
-const OPS: &[&str] = &["scd", "sch", "jd.week", "jd.weekf", "sch.daynext"];
+const OPS: &[&str] = &["scd", "sch", "jd.week", "jd.weekf", "sch.daynext", "scd.dep", "sch.dep"];
 
 pub fn exec(op: &str, a: &[i64]) -> Option<Option<String>> {
   if OPS.contains(&op) { Some(go(op, a)) } else { None }
@@ -28,6 +28,21 @@ pub fn go(op: &str, a: &[i64]) -> Option<String> {
       let lh = t.get_lunar_hour();
       Some(format!("{} {} {} {} {} {} {}", v.get_year().get_index(), v.get_month().get_index(), v.get_day().get_index(),
         v.get_sixty_cycle().get_index(), v.get_index_in_day(), lh.get_sixty_cycle().get_index(), lh.get_index_in_day()))
+    }
+    // the same pillars through the older (deprecated, still public) getters of the lunar day / lunar hour: year, month, day
+    // (hour) pillar — they must give what the sexagenary views give
+    ("scd.dep", 3) => {
+      let l = solar_day(a[0], a[1], a[2])?.get_lunar_day();
+      #[allow(deprecated)]
+      let r = format!("{} {} {}", l.get_year_sixty_cycle().get_index(), l.get_month_sixty_cycle().get_index(), l.get_sixty_cycle().get_index());
+      Some(r)
+    }
+    ("sch.dep", 6) => {
+      let t = SolarTime::new(a[0] as isize, us(a[1])?, us(a[2])?, us(a[3])?, us(a[4])?, us(a[5])?).ok()?;
+      let lh = t.get_lunar_hour();
+      #[allow(deprecated)]
+      let r = format!("{} {} {} {}", lh.get_year_sixty_cycle().get_index(), lh.get_month_sixty_cycle().get_index(), lh.get_day_sixty_cycle().get_index(), lh.get_sixty_cycle().get_index());
+      Some(r)
     }
     // weekday of the Julian day of an INSTANT (fractional Julian date: any time of day) — JulianDay::get_week
     ("jd.week", 6) => {
